@@ -40,6 +40,7 @@ Record vfp := {
   (* UserRx *)
   f_rx_ff : Z; f_rx_len : Z; f_rx_len_bytes : Z; f_rx_qbytes : Z;
   f_rx_disp_waker : bool; f_rx_reader_waker : bool; f_rx_reader_dropped : bool; f_rx_closed : bool;
+  f_rx_last_remaining : Z;      (* UserRx::last_remaining_rx_window *)
   (* UserTx *)
   f_tx_len : Z; f_tx_cap : Z;
   f_tx_closed : bool; f_tx_writer_dropped : bool; f_tx_writer_shutdown : bool;
@@ -81,6 +82,7 @@ Definition fp_of_vsock (s : vsock CC) : vfp :=
      f_rx_len_bytes := ooq_len_bytes (v_rx s); f_rx_qbytes := q_len_bytes (v_rx s);
      f_rx_disp_waker := disp_waker (v_rx s); f_rx_reader_waker := reader_waker (v_rx s);
      f_rx_reader_dropped := reader_dropped (v_rx s); f_rx_closed := vsock_closed (v_rx s);
+     f_rx_last_remaining := last_remaining_rx_window (v_rx s);
      f_tx_len := Z.of_nat (length (ring (v_tx s))); f_tx_cap := cap (v_tx s);
      f_tx_closed := t_vsock_closed (v_tx s); f_tx_writer_dropped := writer_dropped (v_tx s);
      f_tx_writer_shutdown := writer_shutdown (v_tx s);
